@@ -365,7 +365,16 @@ def run_impl(case):
             st = {}
             if k == "write":
                 lines = cell.format_for_mcnp_input((6, 2, 0))
-                st["text"] = geometry_text(lines, 1)
+                # what Cell.format_for_mcnp_input hands to wrap_string_for_mcnp (the tree was just updated by it)
+                unwrapped = abstract(cell._tree["geometry"].format(), stop_at_parameters=False)
+                wrapped = len("\n".join(lines).split("\n")) != len((f"1 0 " + cell._tree["geometry"].format()).split("\n"))
+                if wrapped:
+                    # a line reached the column limit and was re-broken: line wrapping is property C10's
+                    # (its known defect: a "$" comment is spilled onto a data line); C02 judges the text before wrapping
+                    st["wrapped"] = True
+                    st["text"] = unwrapped
+                else:
+                    st["text"] = geometry_text(lines, 1)
             else:
                 if k == "not":
                     cell.geometry = ~cell.geometry
